@@ -160,6 +160,8 @@ def run(tier, rnd, out):
     n = 25 if tier == "quick" else 1200
     cs = [mk_case(rnd, rand_desc(rnd, ty, on)) for ty in TYPES for on in (0, 1) for _ in range(n)]
     cs += [mk_case(rnd, rand_desc(rnd, ty, nbytes=k)) for ty in TYPES for k in (range(33) if tier == "thorough" else [0, 1, 2, 31, 32])]
+    for w in [11 * k for k in (1, 3, 9, 13, 109, 317, 1001, 2999, 5957)] + [1, 21, 22, 23, 109, 110, 111, 219, 221, 3489]:      # exact ties of watts / 220 at one decimal (odd multiples of 11) and their neighbours
+        d = rand_desc(rnd, rnd.choice(TYPES[:6]), 1); d[7] = w; cs.append(mk_case(rnd, d))
     if tier == "thorough":
         for w in range(0, 65536, 7): d = rand_desc(rnd, rnd.choice(TYPES[:6]), 1); d[7] = w; cs.append(mk_case(rnd, d))
     run_stream(out, "encoded-descriptions", cs)
